@@ -304,6 +304,7 @@ theorem nextStep_remain (mem : Mem) (m : Meth) (s s2 : Step)
   · cases h
   · cases h; exact remOK_refl _ _ rfl
   · cases h; exact remOK_refl _ _ rfl
+  · cases h; exact remOK_refl _ _ rfl
   · exact nextStepPgt_remain _ _ _ _ _ _ h
   · unfold nextMemarr at h
     repeat' split at h
